@@ -1349,6 +1349,9 @@ func (n *Node) appKey() uint64 {
 	if n.ledgerAhead {
 		s.b(0xe2)
 	}
+	if n.foreignEarly {
+		s.b(0xe3)
+	}
 	s.u64(uint64(n.permMode))
 	s.u64(uint64(len(n.pool)))
 	for _, h := range n.pool {
